@@ -286,6 +286,12 @@ pub struct RunSpec {
     pub may_forget: bool,
     /// run inside tokio's cooperative budget
     pub coop: bool,
+    /// how many times `StreamOpts::rev()` is called when `reverse` (documented as
+    /// idempotent): 1..=3
+    pub rev_calls: u8,
+    /// register (no-op) `fn_interrupt_activate` / `fn_interrupt_poll_item` hooks on the
+    /// interruptibility state
+    pub intr_hooks: bool,
     /// for_each family: the schedule may send the signal also while hand-outs may still
     /// be waiting for their first poll (then only the count bound of C08 is not
     /// evaluated, everything else is)
@@ -565,6 +571,8 @@ impl RunSpec {
             "may_abort": self.may_abort,
             "may_forget": self.may_forget,
             "coop": self.coop,
+            "rev_calls": self.rev_calls,
+            "intr_hooks": self.intr_hooks,
             "signals_anytime": self.signals_anytime,
             "leave_refs": self.leave_refs,
             "carried_slots": self.carried_slots,
@@ -593,6 +601,8 @@ impl RunSpec {
             may_abort: v.get("may_abort")?.as_bool()?,
             may_forget: v.get("may_forget")?.as_bool()?,
             coop: v.get("coop").and_then(|c| c.as_bool()).unwrap_or(false),
+            rev_calls: v.get("rev_calls").and_then(|c| c.as_u64()).unwrap_or(1) as u8,
+            intr_hooks: v.get("intr_hooks").and_then(|c| c.as_bool()).unwrap_or(false),
             signals_anytime: v.get("signals_anytime").and_then(|c| c.as_bool()).unwrap_or(false),
             leave_refs: v.get("leave_refs").and_then(|c| c.as_bool()).unwrap_or(false),
             carried_slots: v.get("carried_slots").and_then(|c| c.as_u64()).unwrap_or(0) as u8,
